@@ -444,6 +444,16 @@ def gen_spec(ctx, sh, depth=0):
             return ['Call', f, args, None], None
         return ['T', 'T', [['.', '__class__'], ['.', '__name__']]], 'name'
     if c == 'invoke':
+        if isinstance(sh, dict) and sh.get('t') in ('list', 'dict') and rng.random() < 0.4:
+            # star arguments taken straight from the target, with more arguments after (and before)
+            # them: the call gets a NEW argument list / mapping, the target's own is only read
+            star = ['*', ['T', 'T', []], None] if sh['t'] == 'list' else ['*', None, ['T', 'T', []]]
+            ops = [star, ['C', [scalar(rng)], {'zz': 1}]]
+            if rng.random() < 0.3:
+                ops.insert(0, ['C', [0], {}])
+            if rng.random() < 0.3:
+                ops.append(star)
+            return ['Invoke', ['fn', 'argpack'], ops], None
         f = ['probe', ctx.new_pid(), 'tok'] if ctx.probes else ['fn', 'pair']
         ops = []
         for _ in range(rng.randint(1, 2)):
